@@ -1134,6 +1134,8 @@ class Interp:
 
     def _is_enum_member_name(self, cls, attr):
         ex_ = cls.consts.get(attr)
+        if attr in getattr(cls, "late_attrs", ()):
+            return False          # assigned after the class body: a plain class attribute, never a member
         return ex_ is not None and not attr.startswith("_") and not isinstance(ex_, ast.Lambda)
 
     def enum_member(self, cls, attr):
